@@ -24,6 +24,7 @@ import struct
 
 from hypothesis import strategies as st
 
+from vf import usage
 from vf.enc import elf as W
 from vf.choose import RndChooser, HypChooser
 
@@ -665,8 +666,32 @@ def run_case(ctx, case):
             ctx.fail('views-differ', 'section view yields %d notes, segment view %d; first difference at index %d: %r vs %r'
                      % (len(sa), len(sb), k, sa[k] if k < len(sa) else None, sb[k] if k < len(sb) else None), case)
         ctx.count('views.compared')
+    # the same walks consumed step by step, with the stream moved, a nested walk started and another question asked between two steps
+    for v, obj in (('section', ef.get_section(ix['sec']) if 'sec' in results else None), ('segment', ef.get_segment(ix['seg']) if 'seg' in results else None)):
+        if obj is None or results[v[:3]][1] is not None:
+            continue
+        try:
+            again = usage.stepwise(obj.iter_notes, usage.disturber(ef.stream, obj.iter_notes, (lambda: obj.data()[:4], lambda: ef.get_section(0).name)))
+            if [snapshot(n) for n in again] != [snapshot(n) for n in results[v[:3]][0]]:
+                ctx.fail('walk|interleaved-with-other-stream-use', '%s view: a plain loop yields %d notes; stepping through iter_notes() with seeks, a nested walk and data() '
+                         'in between yields %d (or different ones)' % (v, len(results[v[:3]][0]), len(again)), case)
+            if len(again) >= 2:
+                ctx.count('walk.stepwise')
+        except Exception as e:  # noqa
+            ctx.fail_exc('walk|interleaved-with-other-stream-use', e, case, extra='(%s view)' % v)
     if ix['stab'] is not None:
         check_stabs(ctx, case, ef, R, ix['stab'])
+        try:
+            sec = ef.get_section(ix['stab'])
+            if type(sec).__name__ == 'StabSection':
+                plain = [snapshot(dict(x)) if hasattr(x, 'items') else x for x in sec.iter_stabs()]
+                stepped = [snapshot(dict(x)) if hasattr(x, 'items') else x for x in usage.stepwise(sec.iter_stabs, usage.disturber(ef.stream, sec.iter_stabs, (lambda: ef.get_section(0).name,)))]
+                if plain != stepped:
+                    ctx.fail('stab|interleaved-with-other-stream-use', 'a plain loop yields %d records, a step-by-step walk with seeks in between %d (or different ones)' % (len(plain), len(stepped)), case)
+                if len(plain) >= 2:
+                    ctx.count('stab.stepwise')
+        except Exception as e:  # noqa
+            ctx.fail_exc('stab|interleaved-with-other-stream-use', e, case)
     _register(ctx, case, exp, data)
 
 
